@@ -20,6 +20,7 @@ func runC11Gather(c *core.Ctx) {
 	t := c.T
 	cfg := drawGCfg(t)
 	cfg.sched = false
+	cfg.stunWriteBlocks = false
 	cfg.relayTLS = false // a TURN server that never answers the TLS handshake keeps the cycle open for ever: no marker is due
 	if t.Bias(1, 2, "force-relay") {
 		cfg.relay, cfg.parkAllocate = true, true
